@@ -69,7 +69,7 @@ REAL = ['asyncssh stream.py (SSHReader/SSHWriter/SSHStreamSession), '
         'process.py (SSHClientProcess/SSHServerProcess, redirection), '
         'channel, connection of both endpoints']
 STUB = ['event loop + clock', 'TCP', 'executor', 'OS randomness']
-PROBES = ['redirect_sends_eof', 'held_back_by_redirect_target', 'closed_while_source_feeds', 'server_hung_up_at_once', 'collect_output_polled', 'signal_in_stream', 'mode_editor', 'soft_eof_ended_a_call', 'redirect_target_failed', 'server_side_redirect', 'redirect_switched', 'redirect_concat', 'read_cancelled', 'async_iteration', 'mode_reader', 'mode_run', 'mode_redirect', 'text_mode',
+PROBES = ['merged_into_file', 'redirect_sends_eof', 'held_back_by_redirect_target', 'closed_while_source_feeds', 'server_hung_up_at_once', 'collect_output_polled', 'signal_in_stream', 'mode_editor', 'soft_eof_ended_a_call', 'redirect_target_failed', 'server_side_redirect', 'redirect_switched', 'redirect_concat', 'read_cancelled', 'async_iteration', 'mode_reader', 'mode_run', 'mode_redirect', 'text_mode',
           'tiny_packets', 'readuntil_multi', 'readuntil_regex',
           'incomplete_read_at_eof', 'limit_overrun', 'exit_signal',
           'exit_status', 'redirect_process', 'redirect_file',
@@ -230,6 +230,11 @@ def gen_plan(rng):
             else None
         # the application closes the process while the source of its stdin
         # redirect still has data to give
+        # stderr=STDOUT together with a file for stdout, set up `late`
+        # events after the command was started (its output, and even its
+        # EOF, may be there already)
+        plan['merge_to_file'] = plan['target'] == 'stderr_stdout' and \
+            rng.chance(50)
         plan['close_mid'] = rng.choice([None, None, 0, 1, 3, 10]) \
             if plan['target'] in ('stream_in', 'stdin_file') else None
 
@@ -994,6 +999,22 @@ def run_plan(plan, sched_seed=None, sched_replay=None):
                         res['run'] = await proc.wait()
 
                     sim.probes['redirect_file'] += 1
+                elif target == 'stderr_stdout' and plan.get('merge_to_file'):
+                    proc = await conn.create_process('cmd', **kw)
+                    w = sim.track('cli-stdin', write_stdin(proc))
+
+                    for _ in range(plan.get('late', 0)):
+                        await sim.pause('late-redirect')
+
+                    await proc.redirect(stdout=path, stderr=asyncssh.STDOUT)
+                    sim.probes['merged_into_file'] += 1
+                    await w
+                    await proc.wait()
+
+                    with open(path, 'rb') as f:
+                        raw = f.read()
+
+                    res['merged'] = raw.decode('utf-8') if text else raw
                 elif target == 'stderr_stdout':
                     proc = await conn.create_process(
                         'cmd', stderr=asyncssh.STDOUT, **kw)
